@@ -281,10 +281,11 @@ def derived_round_trip(chk, rule, cls, m, wfn, rfn, wi, ri, inv, nwords, inst, r
     # writer expression: resolve a const local through its declaration
     wexpr = C.strip_casts(wsrc)
     if wexpr.get("k") == "Ref" and "id" in wexpr:
+        wid = wexpr["id"]
         for st in C.walk_stmt(wfn["body"]):
             if st.get("k") == "Decl":
                 for d in st["d"]:
-                    if d["id"] == wexpr["id"] and d.get("init") is not None:
+                    if d["id"] == wid and d.get("init") is not None:
                         wexpr = d["init"]
     # reader expression: the member initialiser / assignment of m
     rexpr = None
